@@ -6,7 +6,8 @@ PROP = {'level': 'fault_enumeration',
                'indexes; for larger files every structure boundary +-2 bytes - header fields, bucket-table entries, bucket starts/ends, per-key entry '
                'positions, section starts/ends - plus seed-chosen offsets) the truncated copy is opened with the repository\'s own openers (os.File, '
                'mmap, NewGsfaReader, FromFile, the server sequence ReadAllFromReaderAt+FromBytes, NewEpochFromConfig local and remote) and every stored '
-               'key is looked up. Oracle: same answer as the complete file, or an error that is not a not-found error.',
+               'key is looked up. One layer up, the same fault is observed at the JSON-RPC / gRPC surface of a server that has a second, complete epoch loaded. '
+               'Oracle: same answer as the complete file, or an error that is not a not-found error.',
  'level_note': 'the fault space is enumerated completely only for the small files (parts marked exhaustive); for the large ones it is boundaries + a seeded '
                'sample. Only clean truncation is injected (no torn pages, no bit flips, no file that shrinks while it is mapped). Deprecated index formats '
                'and split-piece CARs are not exercised.',
